@@ -1634,6 +1634,7 @@ class Interp:
                 return
             if self.feasible(exit_st):
                 exit_st.ghost['$k_' + name] = SV(INT, k)
+                exit_st.ghost['$exit_' + name] = dict(exit_st.frames[exit_st.cur][0])          # the locals as the loop left them
                 yield exit_st, OUT_NORMAL
         else:
             for s, c in self.ev(node.test, exit_st):
@@ -1642,6 +1643,7 @@ class Interp:
                 for s2, b in self.branch(s, self.truth(s, c)):
                     if not b:
                         s2.ghost['$k_' + name] = SV(INT, k)
+                        s2.ghost['$exit_' + name] = dict(s2.frames[s2.cur][0])
                         yield s2, OUT_NORMAL
 
     def _inv(self, spec, ctx):
